@@ -198,6 +198,31 @@ def _(s):
                 self.send(message)""")
     return s
 
+@mutant("c11_flush_before_write", "eliot/_output.py")
+def _(s):
+    return rep(s, """        self.file.write(
+            self._dumps(message, default=self._json_default) + self._linebreak
+        )
+        self.file.flush()""", """        self.file.flush()
+        self.file.write(
+            self._dumps(message, default=self._json_default) + self._linebreak
+        )""")
+
+@mutant("c11_flush_every_other", "eliot/_output.py")
+def _(s):
+    return rep(s, "        self.file.flush()\n", "        if len(message) % 2:\n            self.file.flush()\n")
+
+@mutant("c10_text_ensure_ascii", "eliot/json.py")
+def _(s):
+    return rep(s, '        return _dumps_bytes(o, default=default).decode("utf-8")',
+               '        import json as _j\n        return _j.dumps(_j.loads(_dumps_bytes(o, default=default)))')
+
+@mutant("c10_float_repr", "eliot/json.py")
+def _(s):
+    return rep(s, '    from orjson import dumps as _dumps_bytes\n',
+               '    from orjson import dumps as _orjson_dumps\n\n    def _dumps_bytes(o, default=None):\n'
+               '        import json as _j\n        return _j.dumps(_j.loads(_orjson_dumps(o, default=default)), ensure_ascii=False).encode("utf-8")\n')
+
 def main():
     name = sys.argv[1]
     d = sys.argv[2] if len(sys.argv) > 2 else "/tmp/mut"
